@@ -436,7 +436,6 @@ func exitPoint(in ssa.Instruction) (*ssa.Return, bool) {
 	return nil, false
 }
 
-
 // OnlyClauses restricts a rule to the obligations whose construct starts with one of the given clause names (used when
 // a property borrows some clauses of a rule that belongs to another property). At least one obligation per clause
 // must remain, otherwise the clause's anchor is lost.
